@@ -15,6 +15,35 @@ import (
 
 func init() { families["esl"] = runEsl }
 
+var keptEnc, keptCopy []byte
+
+// pieceReader delivers at most max bytes per Read and, if eofWithData is set, the last piece together with io.EOF
+// (both allowed by the io.Reader contract).
+type pieceReader struct {
+	b           []byte
+	max         int
+	eofWithData bool
+}
+
+func (p *pieceReader) Read(out []byte) (int, error) {
+	if len(p.b) == 0 {
+		return 0, io.EOF
+	}
+	n := len(out)
+	if n > p.max {
+		n = p.max
+	}
+	if n > len(p.b) {
+		n = len(p.b)
+	}
+	copy(out, p.b[:n])
+	p.b = p.b[n:]
+	if len(p.b) == 0 && p.eofWithData {
+		return n, io.EOF
+	}
+	return n, nil
+}
+
 // onlyWriter hides everything but Write (the package-level encoders take an io.Writer)
 type onlyWriter struct{ w io.Writer }
 
@@ -124,6 +153,14 @@ func runEsl(sc M) {
 		db2, derr2 = signature.ReadSignatureDatabase(onlyReader{bytes.NewReader(in)})
 		return derr2
 	})
+	// ... and through readers that hand the bytes over in pieces (a pipe, a socket, a buffered reader at its boundary): at most 7
+	// bytes per call, and the last piece together with io.EOF
+	var db3 signature.SignatureDatabase
+	var derr3 error
+	o3, _ := guard(func() error {
+		db3, derr3 = signature.ReadSignatureDatabase(&pieceReader{b: in, max: 7, eofWithData: true})
+		return derr3
+	})
 	ev := M{"sc": id, "ev": "call-end", "call": "ReadSignatureDatabase", "len": len(in), "outcome": o.Kind, "alloc": o.Alloc, "ms": o.Ms, "expect": expect}
 	if o.Kind == "panic" {
 		ev["panic"] = o.Panic
@@ -132,6 +169,17 @@ func runEsl(sc M) {
 	accepted := o.Kind == "value"
 	if o2.Kind != o.Kind || (o.Kind == "value" && !bytes.Equal(db.Bytes(), db2.Bytes())) {
 		agree, why = false, fmt.Sprintf("decoding through a plain io.Reader gives %s / %d lists, through bytes.Reader %s / %d lists", o2.Kind, len(db2), o.Kind, len(db))
+	}
+	if agree && (o3.Kind != o.Kind || (o.Kind == "value" && !bytes.Equal(db.Bytes(), db3.Bytes()))) {
+		agree, why = false, fmt.Sprintf("decoding through a reader that delivers pieces gives %s / %d lists, through bytes.Reader %s / %d lists", o3.Kind, len(db3), o.Kind, len(db))
+	}
+	// an encoding handed out earlier stays what it was (the caller keeps it while encoding other databases)
+	if agree && o.Kind == "value" {
+		cur := db.Bytes()
+		if keptEnc != nil && !bytes.Equal(keptEnc, keptCopy) {
+			agree, why = false, "the bytes returned by an earlier Bytes() call changed when another database was encoded"
+		}
+		keptEnc, keptCopy = cur, append([]byte{}, cur...)
 	}
 	switch {
 	case !agree:
